@@ -418,6 +418,11 @@ func (r *transport) handleStaleWhileRevalidate(
 	//
 	// Open a discussion at github.com/bartventer/httpcache/issues if your use case requires
 	// guaranteed completion.
+	// Served without validation: fields named by a qualified no-cache are not replayed.
+	internal.StripNoCacheFields(
+		stored.Data.Header,
+		internal.ParseCCResponseDirectives(stored.Data.Header),
+	)
 	internal.SetAgeHeader(stored.Data, r.clock, freshness.Age)
 	internal.CacheStatusStale.ApplyTo(stored.Data.Header)
 	go r.backgroundRevalidate(req2, stored, urlKey, freshness, ccReq)
